@@ -38,6 +38,28 @@ def do_replay(run, env, replay):
     run.coverage["explanation"] = "replay"
     return "other"
 
+def corpus(env, rng, which):
+    """directed regression scripts: the recorded known findings (re-observed on every run) and repaired defects"""
+    hx = fsgen.hx
+    for j, gname in enumerate(["f16_min", "f32_min"]):
+        geo = fsgen.geometry(rng, None, [gname])
+        img, meta = fsgen.build_image(rng, geo, populate=1)
+        v = meta["vol"]
+        if "zero-cdate" in which:
+            node = v.add_file(v.root, "OLDDATE.TXT", b"created by a tool that leaves the date fields zero", raw_cdate=0, raw_ctime=0)
+            meta["files"]["/OLDDATE.TXT"] = node
+        path, dev = env.new_image(img, "corpus%d" % j)
+        meta = dict(meta); meta["dev0"] = dev
+        ops = ["openvol %d -> $v" % meta["slot"], "openroot $v -> $r"]
+        if "e5-name" in which:
+            ops += ["open $r %s RWC -> $e" % hx("\u00e5B.TXT"), "write $e 2 1", "close $e", "iter $r", "find $r %s" % hx("\u00e5B.TXT"),
+                    "open $r %s RWCA -> $e2" % hx("\u00e5B.TXT"), "close $e2"]
+        if "zero-cdate" in which:
+            ops += ["open $r %s RWA -> $z" % hx("OLDDATE.TXT"), "write $z 3 2", "close $z"]
+        if "root-dir-stale-volume" in which:
+            ops += ["closedir $r", "closevol $v", "openroot $v -> $stale", "hasopen", "closedir $stale", "openroot #4242 -> $never", "closedir $never"]
+        env.add_script("corpus%d" % j, path, (1, 4, 4), ops, 5000, (), meta)
+
 def tier_n(run, quick, thorough):
     return thorough if run.tier == "thorough" else quick
 
@@ -54,8 +76,48 @@ def report_oracle(run, env, sc, problems, what, known=None):
         run.violation("%s: %s" % (what, fresh[0][:300]), env.replay_text(sc, "oracle verdicts:\n  " + "\n  ".join(fresh[:8])))
     return bool(fresh)
 
-def common_tail(run, env, theorems, strict=True):
+def probe_scripts(env, sc, d):
+    """directed search around a divergence: cut the script after the diverging op and append read-back /
+    re-open / listing ops so that a hidden corruption becomes observable to the oracles"""
+    try:
+        k = int(d[1].split()[1]) if d[1] != "<end>" else int(d[2].split()[1])
+    except Exception:
+        k = len(sc["ops"]) - 1
+    out = []
+    hx = fsgen.hx
+    fslots = sorted({o.split(" -> ")[1].strip() for o in sc["ops"][:k + 1] if o.startswith("open ") and " -> " in o})
+    dslots = sorted({o.split(" -> ")[1].strip() for o in sc["ops"][:k + 1] if o.startswith(("openroot", "opendir")) and " -> " in o})
+    names = sorted({o.split()[2] for o in sc["ops"][:k + 1] if o.startswith("open ")})
+    for cut in (k + 1, min(k + 4, len(sc["ops"])), len(sc["ops"])):
+        ops = list(sc["ops"][:cut])
+        for f in fslots:
+            ops += ["seekstart %s 0" % f, "read %s 70000" % f, "flush %s" % f]
+        for dd in dslots[:2]:
+            ops += ["iter %s" % dd]
+        for f in fslots:
+            ops += ["close %s" % f]
+        for dd in dslots[:1]:
+            for nm in names[:4]:
+                ops += ["open %s %s RO -> $probe%s" % (dd, nm, nm[:6]), "read $probe%s 70000" % nm[:6], "close $probe%s" % nm[:6]]
+        out.append(env.add_script(sc["name"] + "-probe%d" % cut, sc["img"], sc["limits"], ops, sc["id_offset"], sc["faults"], sc.get("meta")))
+    return out
+
+def common_tail(run, env, theorems, strict=True, oracle=None, what="property violated on a probe around the divergence", known=None):
     dis = env.disagreements(strict=strict)
+    if dis and not run.violations and oracle is not None:
+        # failing-input search: probes around the first divergences, judged by the property's oracle
+        for sc, d, dobs in dis[:3]:
+            probes = probe_scripts(env, sc, d)
+            env.run_all(writes=True, scripts=probes)
+            for p in [sc] + probes:
+                try:
+                    probs = oracle(p)
+                except Exception as e:
+                    probs = []
+                if probs and report_oracle(run, env, p, probs, what, known):
+                    break
+            if run.violations:
+                break
     if dis and not run.violations:
         env.report_disagreements(dis, theorems)
     elif dis:
@@ -84,7 +146,10 @@ def check_C01(run, replay=None):
             return None
         if probs and bad < 2:
             bad += report_oracle(run, env, sc, probs, "byte-array file model violated by the implementation", known)
-    common_tail(run, env, run.coverage.get("theorems", []))
+    def orc(sc):
+        tr = O.Trace(sc)
+        return O.run_spec(tr, sc["meta"]["dev0"], sc["meta"]["slot"])[0]
+    common_tail(run, env, run.coverage.get("theorems", []), oracle=orc, what="byte-array file model violated by the implementation")
     return finish(run, env, "C01", "generated open/seek/read/write/flush/close histories over up to MAX_FILES files (and two volumes), lengths and seek targets from {0,1,511,512,513,cluster-1,cluster,cluster+1,3 clusters+7,random}; non-trivial = at least one device write and one successful result; oracle = python byte-array model replayed on the implementation's results")
 
 # ============================================================================ C02
@@ -113,6 +178,7 @@ def check_C02(run, replay=None):
     n = tier_n(run, 80, 1200)
     prof = fsgen.profile(weights=dict(write=12, open=10, close=6, flush=4, delete=4, mkdir=4, read=2, seek=3, bad=1, remount=2), quiesce=True)
     F.std_scenarios(env, rng, n, prof, nops=(20, 60))
+    corpus(env, rng, {"e5-name", "zero-cdate"})
     env.run_all(writes=True)
     bad = 0
     for sc in env.scripts:
@@ -155,11 +221,16 @@ def check_C02(run, replay=None):
             # untouched files and directories: entry bytes and data byte-for-byte unchanged; ctime never changes
             for path, e0 in flat0.items():
                 e1 = flat.get(path)
+                if e1 is not None and path not in sp.deleted and (e1.ctime, e1.cdate) != (e0.ctime, e0.cdate):
+                    if (e0.cdate & 0x1F) == 0 or ((e0.cdate >> 5) & 0xF) == 0:
+                        out.append("KNOWN-zero-cdate %s creation date re-encoded from %04x to %04x" % (path, e0.cdate, e1.cdate))
+                    else:
+                        out.append("%s: creation time changed from %04x/%04x to %04x/%04x" % (path, e0.cdate, e0.ctime, e1.cdate, e1.ctime))
                 if path in sp.touched or e1 is None:
                     if e1 is None and path not in sp.touched and not any(path.startswith(t + "/") for t in sp.touched):
                         out.append("%s: untouched entry disappeared" % path)
                     continue
-                if (e1.ctime, e1.cdate) != (e0.ctime, e0.cdate):
+                if False:
                     if (e0.cdate & 0x1F) == 0 or ((e0.cdate >> 5) & 0xF) == 0:
                         out.append("KNOWN-zero-cdate %s creation date re-encoded" % path)
                     else:
@@ -252,6 +323,7 @@ def check_C03(run, replay=None):
     F.std_scenarios(env, rng, n // 4, prof, nops=(20, 50), img_kw=dict(free_left=rng.below(4)))
     F.std_scenarios(env, rng, n // 8, prof, nops=(20, 50), img_kw=dict(full_root=True), kind="fat16")
     F.std_scenarios(env, rng, n // 8, prof, nops=(20, 50), img_kw=dict(big_dir=True, free_left=2))
+    F.std_scenarios(env, rng, max(n // 10, 4), fsgen.profile(weights=dict(mkdir=10, opendir=6, open=10, write=8, close=6)), nops=(15, 35), want=["f32_root5"], img_kw=dict(free_left=12), per_image=2)
     env.run_all(writes=True)
     bad = 0
     for sc in env.scripts:
@@ -260,7 +332,8 @@ def check_C03(run, replay=None):
         probs = per_op_image_checks(run, env, sc, {"fsck"})
         if probs:
             bad += report_oracle(run, env, sc, probs, "the medium is not a well-formed FAT volume after a call returned")
-    common_tail(run, env, run.coverage.get("theorems", []))
+    common_tail(run, env, run.coverage.get("theorems", []), oracle=lambda sc: per_op_image_checks(run, env, sc, {"fsck"}),
+                what="the medium is not a well-formed FAT volume after a call returned")
     return finish(run, env, "C03", "histories incl. failing calls on all geometries, volumes with 0-3 free clusters, full FAT16 roots, multi-cluster directories; oracle = independent structural checker (gen/fatck.py fsck: chains in range/acyclic/terminated/disjoint/long enough, unique names, dot entries, nothing after the end marker) on the implementation's medium after every call that wrote")
 
 def check_C04(run, replay=None):
@@ -293,7 +366,8 @@ def check_C04(run, replay=None):
                         probs.append("block %d of the neighbour partition changed" % i); break
         if probs:
             bad += report_oracle(run, env, sc, probs, "a device write left the region the call may change")
-    common_tail(run, env, run.coverage.get("theorems", []))
+    common_tail(run, env, run.coverage.get("theorems", []), oracle=lambda sc: per_op_image_checks(run, env, sc, {"c04"}),
+                what="a device write left the region the call may change")
     return finish(run, env, "C04", "every block write of every history on single- and multi-partition devices (canary neighbour), volumes with one free cluster, FAT sectors with and without slack; oracle = region/bounds classification of each write of the implementation's write log against the pre-write medium (partition bounds, boot/reserved sectors, FAT entries within the cluster range, FAT32 high nibble, info-sector fields, data area end)")
 
 def check_C05(run, replay=None):
@@ -375,6 +449,8 @@ def check_C06(run, replay=None):
     prof = fsgen.profile(weights=dict(iter=12, find=10, opendir=10, closedir=6, open=6, close=4, delete=6, mkdir=5, write=3, bad=3, read=0, seek=0, query=0, io=0))
     F.std_scenarios(env, rng, n // 2, prof, nops=(20, 50))
     F.std_scenarios(env, rng, n // 2, prof, nops=(20, 50), img_kw=dict(big_dir=True))
+    F.std_scenarios(env, rng, max(n // 10, 4), prof, nops=(15, 35), want=["f32_root5"], img_kw=dict(free_left=12), per_image=2)
+    corpus(env, rng, {"e5-name"})
     env.run_all(writes=True)
     bad = 0
     for sc in env.scripts:
@@ -385,7 +461,8 @@ def check_C06(run, replay=None):
             return "e5-name" if "0xE5" in p else None
         if out:
             bad += report_oracle(run, env, sc, out, "listing/lookup disagrees with the live entries on the medium", known)
-    common_tail(run, env, run.coverage.get("theorems", []))
+    common_tail(run, env, run.coverage.get("theorems", []), oracle=c06_oracle, what="listing/lookup disagrees with the live entries on the medium",
+                known=lambda p: "e5-name" if "0xE5" in p else None)
     return finish(run, env, "C06", "listing/lookup/open-dir on generated directories (live, deleted, LFN, label slots; 1-6 clusters, fragmented; FAT16 roots of 16/32/511/512 entries; FAT32 roots at cluster 2 and 5) before and after create/delete/mkdir; oracle = independent reader's live-entry list of the same directory on the implementation's medium at that moment")
 
 def dir_blocks_of(dev, g, cluster):
@@ -499,6 +576,7 @@ def check_C07(run, replay=None):
         ops += ["delete $mr %s" % fsgen.hx("SUB"), "mkdir $mr %s" % fsgen.hx("A.TXT"), "mkdir $mr %s" % fsgen.hx("SUB"),
                 "opendir $mr %s -> $mx" % fsgen.hx("A.TXT"), "delete $mr %s" % fsgen.hx("MISSING.X"), "delete $mr %s" % fsgen.hx("B.BIN")]
         env.add_script("mx%03d" % j, path, lim, ops, 5000, (), meta)
+    corpus(env, rng, {"e5-name"})
     env.run_all(writes=True)
     bad = 0
     for sc in env.scripts:
@@ -632,6 +710,7 @@ def check_C08(run, replay=None):
     prof = fsgen.profile(weights=dict(openvol=4, closevol=3, openroot=8, opendir=6, closedir=6, open=10, close=7, bad=14, hasopen=5, write=2, read=2,
                                       seek=1, query=2, flush=1, delete=1, mkdir=1, iter=3, label=2, remount=1, io=0))
     F.std_scenarios(env, rng, n, prof, nops=(30, 80), per_image=8, img_kw=dict(second_partition=True))
+    corpus(env, rng, {"root-dir-stale-volume"})
     env.run_all()
     bad = 0
     for sc in env.scripts:
@@ -775,6 +854,9 @@ def check_C09(run, replay=None):
     prof = fsgen.profile(weights=dict(write=12, open=12, close=8, flush=6, delete=5, mkdir=5, read=1, seek=2, bad=1, closevol=1, remount=0, io=0),
                          max_write=3000)
     F.std_scenarios(env, rng, n, prof, nops=(20, 45), want=["f16_min", "f16_exact", "f16_spc8", "f16_spc2", "f32_min", "f32_root5", "f16_slack"])
+    # FAT32 volumes whose only free clusters are numbered above 65535 (both halves of the start cluster matter)
+    hi = fsgen.profile(weights=dict(mkdir=10, opendir=8, open=12, write=10, close=8, flush=4, delete=3, read=1, seek=1, bad=0, remount=0, io=0), max_write=1500)
+    F.std_scenarios(env, rng, max(n // 5, 6), hi, nops=(20, 40), want=["f32_root5"], img_kw=dict(free_left=12), per_image=3)
     env.run_all(writes=True)
     bad = 0
     npoints = 0
